@@ -355,7 +355,13 @@ func bracketDepth(d []byte) int {
 
 func (c08) Gen(r *Rand, sc *Scenario, tier string) {
 	var d Doc
-	switch r.Pick(3, 6, 4, 1, 4, 1) {
+	switch r.Pick(3, 6, 4, 1, 4, 1, 1) {
+	case 6:
+		if r.Chance(1, 4) {
+			d = genHugeStringDoc(r)
+		} else {
+			d = docOf(withTrailer(r, genHomogeneousArray(r)), "homogeneous-array")
+		}
 	case 0:
 		d = genDoc(r, "tiny")
 	case 1:
@@ -397,6 +403,39 @@ func (c08) Gen(r *Rand, sc *Scenario, tier string) {
 			ops = append(ops, Op{Kind: "prior-use", Doc: len(sc.Docs) - 1, A: r.Intn(5), B: r.Intn(2)})
 		}
 	}
+	variant := -1
+	if d.Len() > 0 && d.Len() < 5000 && r.Chance(1, 5) {
+		// the read buffer held another message of the same length at the same address just before
+		// (and the shared Buffers / the long-lived reader were used on it)
+		b := d.Bytes()
+		nb, ok := swapSiblingsDoc(r, b)
+		if !ok || r.Chance(1, 3) {
+			nb, ok = succDoc(r, b)
+		}
+		if !ok || r.Chance(1, 4) {
+			nb = append([]byte(nil), b...)
+			for k := 0; k < 8; k++ {
+				i := r.Intn(len(nb))
+				switch nb[i] {
+				case ',', ':':
+					nb[i] = ' '
+				case ' ':
+					nb[i] = ','
+				case '"':
+					nb[i] = 'q'
+				default:
+					continue
+				}
+				break
+			}
+		}
+		sc.Docs = append(sc.Docs, docOf(nb, d.Class+"-samelen"))
+		variant = len(sc.Docs) - 1
+		if r.Chance(1, 2) {
+			ops = append(ops, Op{Kind: "prior-use", Doc: variant, A: r.Intn(3), B: r.Intn(2), C: 1})
+		}
+		sc.Cfg["one-read-buffer"] = 1
+	}
 	for i := 0; i < n; i++ {
 		op := Op{Kind: "compose", Doc: 0, A: r.Intn(3)}
 		if i == 0 || r.Chance(1, 3) {
@@ -418,6 +457,13 @@ func (c08) Gen(r *Rand, sc *Scenario, tier string) {
 			}
 			op.Tape = append(op.Tape, s+nStrategies*r.Intn(12))
 		}
+		if variant >= 0 {
+			// a stream of two messages through one read buffer: the same decoder (same strategy tape, same
+			// Buffers, same long-lived reader) first decodes the other message, then this one
+			first := op
+			first.Doc = variant
+			ops = append(ops, first)
+		}
 		ops = append(ops, op)
 	}
 	sc.Tasks = [][]Op{ops}
@@ -427,22 +473,41 @@ func (c08) Exec(sc *Scenario, st *Stats) *Violation {
 	pool := newSimPool(nil, nil)
 	pool.install()
 	defer uninstallPool()
-	d := sc.Docs[0]
-	st.ev(d.Class)
-	direct := runAPI("ReadValue", &opCtx{st: st}, d.Bytes())
-	if direct.Panic != "" {
+	st.ev(sc.Docs[0].Class)
+	// the reference for every message a decoder is run on: direct decoding of a fresh copy
+	directOf := map[int]Outcome{}
+	shallowOf := map[int]bool{}
+	refFor := func(di int) (Outcome, bool) {
+		if o, ok := directOf[di]; ok {
+			return o, shallowOf[di]
+		}
+		o := runAPI("ReadValue", &opCtx{st: st}, sc.Docs[di].Bytes())
+		directOf[di] = o
+		shallowOf[di] = bracketDepth(sc.Docs[di].Bytes()) <= 9000 // clearly below the depth limit, whose exact position is C03's business
+		return o, shallowOf[di]
+	}
+	if o, _ := refFor(0); o.Panic != "" {
 		return nil // totality is C10's
 	}
 	// Buffers live for the whole scenario: decoders that ask for a shared / per-depth Buffer get these
 	shared := &rjson.Buffer{}
 	vr := &rjson.ValueReader{}
 	var perDepth []*rjson.Buffer
-	shallow := bracketDepth(d.Bytes()) <= 9000 // clearly below the depth limit, whose exact position is C03's business
-	st.evi("direct", b2i(direct.OK))
+	var arena []byte // one read buffer for every message of the scenario (same address), when asked for
+	inBuf := func(b []byte) []byte {
+		if sc.cfg("one-read-buffer") != 1 {
+			return b
+		}
+		if cap(arena) < len(b) {
+			arena = make([]byte, 0, 2*len(b)+16)
+		}
+		st.probe("messages-share-one-read-buffer")
+		return append(arena[:0], b...)
+	}
 	for oi, op := range sc.Tasks[0] {
 		if op.Kind == "prior-use" {
 			// an earlier call of some buffer-taking function on another document, with the shared Buffers
-			pd := sc.Docs[op.Doc].Bytes()
+			pd := inBuf(sc.Docs[op.Doc].Bytes())
 			targets := []*rjson.Buffer{shared}
 			for len(perDepth) < 3 {
 				perDepth = append(perDepth, &rjson.Buffer{})
@@ -455,12 +520,21 @@ func (c08) Exec(sc *Scenario, st *Stats) *Violation {
 				runAPI(bufOps[op.A%len(bufOps)], x, pd)
 			}
 			// ... and the decoder's long-lived reader has read (or failed on) that document too
-			runAPIRaw(vrOps[op.A%len(vrOps)], &opCtx{st: st, reader: vr}, sc.Docs[op.Doc].Bytes())
+			runAPIRaw(vrOps[op.A%len(vrOps)], &opCtx{st: st, reader: vr}, pd)
 			st.probe("buffers-with-history")
 			st.evi("prior", op.A)
 			continue
 		}
-		data := d.Bytes()
+		if op.Doc >= len(sc.Docs) {
+			continue
+		}
+		d := sc.Docs[op.Doc]
+		direct, shallow := refFor(op.Doc)
+		if direct.Panic != "" {
+			continue
+		}
+		st.evi("direct", b2i(direct.OK))
+		data := inBuf(d.Bytes())
 		c := &composer{tape: NewTape(op.Tape), st: st, bufMode: op.A, readAll: op.B == 1, shared: shared, perDepth: perDepth, vr: vr}
 		st.evi("prog", op.A*2+op.B)
 		var val interface{}
